@@ -45,6 +45,19 @@ pub assume_specification[char::from_u32](h: u32) -> (r: Option<char>)
         (r is Some) == is_scalar_value(h as int),
         r is Some ==> r->0 as u32 == h;
 
+// O-esc, one-letter escapes of TOML 1.0.0: \b \t \n \f \r \" \\  (u and U introduce hex escapes)
+spec fn escape_value(b: u8) -> Option<char> {
+    if b == 0x62 { Some('\u{8}') }
+    else if b == 0x74 { Some('\u{9}') }
+    else if b == 0x6e { Some('\u{a}') }
+    else if b == 0x66 { Some('\u{c}') }
+    else if b == 0x72 { Some('\u{d}') }
+    else if b == 0x22 { Some('\u{22}') }
+    else if b == 0x5c { Some('\u{5c}') }
+    else { None }
+}
+
+
 //@ contract hexescape_len ret=r
     ensures r == (b@.len() == N),
 
@@ -58,3 +71,6 @@ pub assume_specification[char::from_u32](h: u32) -> (r: Option<char>)
         (r is Ok) == is_scalar_value(h as int),
         r is Ok ==> r->Ok_0 as u32 == h,
         r is Err ==> r->Err_0 is OutOfRange,
+
+//@ contract escape_letter_value ret=r
+    ensures r == escape_value(b),
